@@ -130,12 +130,13 @@ def CueTextTokenizer(cue_text: str):
         if c == ord(";"):
           result.append(html.unescape(str(buffer) + ";"))
           state = _State.data
-        elif c == EOF_MARKER:
+        elif c != EOF_MARKER and (chr(c).isalnum() or (c == ord("#") and str(buffer) == "&")):
+          buffer.append(chr(c))
+        else:
+          # not a character reference, e.g. an ampersand followed by a space: the characters read so far are text
           result.extend(buffer)
           state = _State.data
           continue
-        else:
-          buffer.append(chr(c))
 
       elif state is _State.tag:
         if c in (0x09, 0x0A, 0x0C, 0x20):
